@@ -24,7 +24,8 @@ var specialKinds = []string{
 	"idx_escaped", "doc_missing", "idx_kibana", "doc_big", "idx_nonstring", "blank", "idx_dotdot", "act_delete", "doc_missing",
 }
 
-var validDocs = []string{"valid", "nested", "valid", "actionkey", "spaced"}
+// bare = a document without any stored field, nullonly = every value null: both carry no _vid.
+var validDocs = []string{"valid", "nested", "valid", "actionkey", "spaced", "bare", "nullonly", "bare"}
 
 func genSize(t *rapid.T, kind string) int {
 	switch kind {
@@ -204,6 +205,36 @@ func genC15(t *rapid.T) *c15Case {
 		}
 		cs.Elems[k] = f
 		scenario = j
+	}
+	// scenario: one index of the request receives nothing but documents without any stored field ({}, empty
+	// containers, only the timestamp key); the other indexes of the pool keep their ordinary documents.
+	// Only well-formed pairs are rewritten, so the bad elements (and the twin) stay what they are.
+	if rapid.IntRange(0, 3).Draw(t, "bareIndexScenario") == 3 {
+		var ok []int
+		for i := range cs.Elems {
+			if cs.Elems[i].expectation() == expMustOK {
+				ok = append(ok, i)
+			}
+		}
+		if len(ok) == 0 {
+			// no well-formed pair in the request: put one in front
+			e := genValidPair(t, int64(n+1), pool)
+			e.Doc = "bare"
+			cs.Elems = append([]elem{e}, cs.Elems...)
+			if scenario >= 0 {
+				scenario++
+			}
+			ok = []int{0}
+		}
+		bareIdx := cs.Elems[ok[rapid.IntRange(0, len(ok)-1).Draw(t, "bareIndexOf")]].Idx
+		for _, i := range ok {
+			if e := &cs.Elems[i]; e.Idx == bareIdx {
+				e.Doc = "bare"
+				e.DocVar = rapid.IntRange(0, 7).Draw(t, "bareVar")
+				e.NoTs = rapid.Bool().Draw(t, "bareNoTs")
+				e.Size = 0
+			}
+		}
 	}
 	var bad []int
 	for i := range cs.Elems {
